@@ -644,6 +644,8 @@ pub fn drive(exe: &str, check: &str, tier: Tier, hang_secs: u64) -> Outcome {
                         .set("tier", tier.name())
                         .set("idx", idx)
                         .set("sub", sub)
+                        .set("shard", w.shard)
+                        .set("nshards", nshards)
                         .set("what", what)
                         .set("program", String::from_utf8_lossy(&text).to_string()),
                 );
@@ -737,6 +739,36 @@ fn handle_line(line: &str, out: &mut Outcome, seen: &mut HashSet<String>) {
         }
     } else if !line.is_empty() {
         eprintln!("[worker] {line}");
+    }
+}
+
+/// Run one whole shard in a fresh process (replay of a crash that needs the cases before it).
+pub fn run_shard(exe: &str, check: &str, tier: Tier, shard: u64, nshards: u64, timeout_secs: u64) -> String {
+    let mut child = Command::new(exe)
+        .args(["worker", check, tier.name(), &shard.to_string(), &nshards.to_string(), "-1", "-"])
+        .stdin(Stdio::null())
+        .stdout(Stdio::null())
+        .stderr(Stdio::null())
+        .spawn()
+        .expect("spawn");
+    let start = Instant::now();
+    loop {
+        if let Ok(Some(st)) = child.try_wait() {
+            use std::os::unix::process::ExitStatusExt;
+            return if st.success() {
+                "ok".to_string()
+            } else if let Some(s) = st.signal() {
+                format!("signal {s}")
+            } else {
+                format!("exit {}", st.code().unwrap_or(-1))
+            };
+        }
+        if start.elapsed() > Duration::from_secs(timeout_secs) {
+            let _ = child.kill();
+            let _ = child.wait();
+            return "hang".to_string();
+        }
+        std::thread::sleep(Duration::from_millis(20));
     }
 }
 
